@@ -993,6 +993,94 @@ pub fn explore_program(kind: Kind, prog: &[Vec<TOp>], bound: usize) -> (u64, Opt
     (n, violation, outcomes)
 }
 
+
+// -------------------------------------------------------------------------------------------
+// C Data / C Stream Interface round trip over the type grid: imported == exported, in every drop order
+
+fn ffi_grid(ctx: &Ctx, st: &mut Stats) {
+    use arrow_array::ffi_stream::{ArrowArrayStreamReader, FFI_ArrowArrayStream};
+    use arrow_array::{RecordBatch, RecordBatchIterator, RecordBatchReader};
+    use vmodel::build::{layouts_1, realise};
+    use vmodel::extract::extract;
+    let grid = vmodel::grid_core();
+    let n = ctx.pick(2, 3);
+    let mut cases = vec![];
+    for (ti, dt) in grid.iter().enumerate() {
+        for col in vmodel::columns(dt, 4, n, true) {
+            for lay in layouts_1(dt) {
+                cases.push((ti, col.clone(), lay));
+            }
+        }
+    }
+    st.merge(vcore::par_for(ctx, "ffi-grid", cases.len() as u64, 16, |idx, st| {
+        let (ti, col, lay) = &cases[idx as usize];
+        let dt = &grid[*ti];
+        let Ok(a) = realise(dt, col, lay) else { return };
+        let case = || json!({"sub":"ffi-grid","column":vmodel::col_json(dt, col),"layout":lay.name()});
+        let kind = dt.to_string().split(['(', '<']).next().unwrap_or("").to_string();
+        for drop_source_first in [false, true] {
+            let r = catch(|| -> Result<Option<String>, (String, String)> {
+                let data = a.to_data();
+                let (fa, fs) = to_ffi(&data).map_err(|e| ("c16:ffi:export-error".to_string(), e.to_string()))?;
+                let keep = if drop_source_first { None } else { Some(data) };
+                let imported = unsafe { from_ffi(fa, &fs) }.map_err(|e| (format!("c16:ffi:import-error:{kind}"), e.to_string()))?;
+                drop(fs);
+                drop(keep);
+                // (from_ffi is an unsafe, unchecked import: C16 only demands logical equality. Whether the imported
+                // layout is also spec-valid is recorded: an empty slice of a byte array comes back with a zero-length
+                // values buffer under a non-zero first offset.)
+                let wf_err = vmodel::validate::well_formed(make_array(imported.clone()).as_ref()).err();
+                let back = extract(make_array(imported).as_ref());
+                if &back != col {
+                    return Err((format!("c16:ffi:imported-differs:{kind}"), format!("{back:?}")));
+                }
+                Ok(wf_err)
+            });
+            st.add("ffi-grid", 1, (!col.is_empty()) as u64);
+            match r {
+                Ok(Ok(None)) => {}
+                Ok(Ok(Some(e))) => st.count(&format!("ffi-imported-not-spec-valid:{}", e.split(':').next().unwrap_or("")), 1),
+                Ok(Err((fp, m))) => st.violate(2_000_000_000 + idx, fp, m, case),
+                Err(p) => st.violate(2_000_000_000 + idx, format!("c16:ffi:{}", p.fingerprint()), format!("{p:?}"), case),
+            }
+        }
+        // stream interface: two batches through FFI_ArrowArrayStream
+        let r = catch(|| -> Result<(), (String, String)> {
+            let schema = Arc::new(arrow_schema::Schema::new(vec![arrow_schema::Field::new("c", dt.clone(), true)]));
+            let b = RecordBatch::try_new(schema.clone(), vec![a.clone()]).map_err(|e| ("c16:ffi-stream:batch".to_string(), e.to_string()))?;
+            let reader = RecordBatchIterator::new(vec![Ok(b.clone()), Ok(b.slice(0, b.num_rows() / 2))].into_iter(), schema.clone());
+            let stream = FFI_ArrowArrayStream::new(Box::new(reader));
+            let mut rd = ArrowArrayStreamReader::try_new(stream).map_err(|e| (format!("c16:ffi-stream:import-error:{kind}"), e.to_string()))?;
+            if rd.schema() != schema {
+                return Err((format!("c16:ffi-stream:schema-differs:{kind}"), format!("{:?}", rd.schema())));
+            }
+            let mut rows = vec![];
+            for x in &mut rd {
+                let x = x.map_err(|e| (format!("c16:ffi-stream:next-error:{kind}"), e.to_string()))?;
+                if x.num_columns() != 1 || x.column(0).data_type() != dt {
+                    return Err((format!("c16:ffi-stream:schema-differs:{kind}"), format!("{:?}", x.schema())));
+                }
+                rows.push(extract(x.column(0).as_ref()));
+            }
+            drop(rd);
+            let want = vec![col.clone(), col[..col.len() / 2].to_vec()];
+            if rows != want {
+                return Err((format!("c16:ffi-stream:rows-differ:{kind}"), format!("{rows:?}")));
+            }
+            Ok(())
+        });
+        st.add("ffi-stream", 1, (!col.is_empty()) as u64);
+        match r {
+            Ok(Ok(())) => {}
+            Ok(Err((fp, m))) => st.violate(2_000_000_000 + idx, fp, m, case),
+            Err(p) => st.violate(2_000_000_000 + idx, format!("c16:ffi-stream:{}", p.fingerprint()), format!("{p:?}"), case),
+        }
+        if idx as usize == cases.len() / 2 {
+            st.sample("ffi-grid", case);
+        }
+    }));
+}
+
 pub fn run(ctx: &Ctx) -> ! {
     let mut st = Stats::new();
     if let Some(case) = vcore::load_replay(ctx) {
@@ -1000,6 +1088,7 @@ pub fn run(ctx: &Ctx) -> ! {
         println!("C16 replays are re-executed by the check itself: histories are listed in the case; run ./check C16 to re-explore");
         std::process::exit(0);
     }
+    ffi_grid(ctx, &mut st);
     // ---- sequential histories
     let depth = ctx.pick(6, 8);
     let max_handles = ctx.pick(3, 4);
